@@ -85,23 +85,12 @@ func c23Gen(r *vu.RNG, n int, emit func(string)) {
 		nb := 2 + r.Intn(7)
 		parent := make([]int, nb+1)
 		num := make([]int, nb+1)
-		nkids := make([]int, nb+1)
 		chainy := r.Chance(2, 3)
 		for k := 1; k <= nb; k++ {
 			p := r.Intn(k)
 			if chainy && r.Chance(3, 4) {
 				p = k - 1
 			}
-			// at most two children per block: with three or more siblings BlockTree.Prune
-			// (property C15/C17, lib/blocktree) skips siblings, which changes which abandoned
-			// headers stay readable; keep this harness independent of that defect
-			for tries := 0; nkids[p] >= 2 && tries < 50; tries++ {
-				p = r.Intn(k)
-			}
-			if nkids[p] >= 2 {
-				p = k - 1
-			}
-			nkids[p]++
 			parent[k] = p
 			num[k] = num[p] + 1
 		}
